@@ -322,7 +322,16 @@ def _sub_any(c):
     c.returns("AnySchema")
     c.ensures("same-class", lambda r, post: z3.And(S.is_schema(ct, r), M.rcls(r) == M.rcls(Sx)), ("C12", "C07"))
 
-    def types_post(r, post):
+    c.ensures("types", lambda r, post: any_fact(ct, Sx, v, kw, r), ("C04", "C05", "C12"))
+    c.meta = {"cls": "AnySchema"}
+
+
+def any_fact(ct, Sx: Any, v: Any, kw: Any, r: Any) -> Any:
+    """what Substitutor.visit_any guarantees about its result (proved against the body)"""
+    T_ = S.prop(Sx, "types")
+    n = M.llen(T_)
+    j, k = z3.Ints("saj sak")
+    if True:
         R = S.prop(r, "types")
         m = M.llen(R)
         return z3.And(
@@ -336,8 +345,6 @@ def _sub_any(c):
                 z3.ForAll([j], z3.Implies(z3.And(0 <= j, j < n, z3.Not(subraises(M.lat(T_, j), v, kw))),
                                           z3.Exists([k], z3.And(0 <= k, k < m, M.lat(R, k) == subres(M.lat(T_, j), v, kw)),
                                                     patterns=[M.lat(R, k)])), patterns=[M.lat(T_, j)]))))
-    c.ensures("types", types_post, ("C04", "C05", "C12"))
-    c.meta = {"cls": "AnySchema"}
 
 
 @invariant(SUB, "Substitutor.visit_any", loop=0)
@@ -501,26 +508,36 @@ def _sub_dict(c):
     c.returns("DictSchema")
     c.ensures("same-class", lambda r, post: z3.And(S.is_schema(ct, r), M.rcls(r) == M.rcls(Sx)), ("C12", "C07"))
 
-    def post(r, post_):
+    c.ensures("keys", lambda r, post_: dict_fact(ct, Sx, v, kw, r), ("C04", "C05", "C12"))
+    c.meta = {"cls": "DictSchema"}
+
+
+def dict_fact(ct, Sx: Any, v: Any, kw: Any, r: Any) -> Any:
+    """what Substitutor.visit_dict guarantees about its result (proved against the body)"""
+    K = S.prop(Sx, "keys")
+    x = z3.Const("sdx", Obj)
+    j = z3.Int("sdj")
+    untyped = z3.Or(K == M.NilV, z3.And(M.klen(K) == 1, M.has(K, M.EllV)))
+    if True:
         R = S.prop(r, "keys")
         pair = M.dget(R, x)
         return z3.And(
             V.rvalid(Sx, v), M.isinstance_f(ct, v, "dict"), M.isinstance_f(ct, R, "dict"),
             z3.If(untyped,
-                  z3.And(z3.ForAll([x], M.has(R, x) == z3.Or(M.has(v, x), z3.And(x == M.EllV, K != M.NilV)), patterns=[M.has(R, x)]),
+                  z3.And(z3.ForAll([x], M.has(R, x) == z3.Or(M.has(v, x), z3.And(x == M.EllV, K != M.NilV)),
+                                   patterns=[M.has(R, x), M.has(v, x)]),
                          z3.ForAll([x], z3.Implies(z3.And(M.has(v, x), z3.Not(z3.And(x == M.EllV, K != M.NilV))),
-                                                   dict_untyped_entry(ct, v, x, pair)), patterns=[M.dget(R, x)]),
+                                                   dict_untyped_entry(ct, v, x, pair)), patterns=[M.dget(R, x), M.has(v, x)]),
                          # a relaxed schema stays relaxed (this entry replaces whatever the value gave for `...`)
                          z3.Implies(K != M.NilV, _pair(ct, M.dget(R, M.EllV), lambda m: m == M.EllV, M.mk_bool(False)))),
                   z3.And(z3.Not(M.has(v, M.EllV)),
                          # the declared keys, in the declared order; no key of the value is unknown
                          M.klen(R) == M.klen(K),
                          z3.ForAll([j], z3.Implies(z3.And(0 <= j, j < M.klen(K)), M.kat(R, j) == M.kat(K, j)), patterns=[M.kat(R, j)]),
-                         z3.ForAll([x], M.has(R, x) == M.has(K, x), patterns=[M.has(R, x)]),
+                         z3.ForAll([x], M.has(R, x) == M.has(K, x), patterns=[M.has(R, x), M.has(K, x)]),
                          z3.ForAll([x], z3.Implies(M.has(v, x), M.has(K, x)), patterns=[M.has(v, x)]),
-                         z3.ForAll([x], z3.Implies(M.has(K, x), dict_keyed_entry(ct, K, v, kw, x, pair)), patterns=[M.dget(R, x)]))))
-    c.ensures("keys", post, ("C04", "C05", "C12"))
-    c.meta = {"cls": "DictSchema"}
+                         z3.ForAll([x], z3.Implies(M.has(K, x), dict_keyed_entry(ct, K, v, kw, x, pair)),
+                                   patterns=[M.dget(R, x), M.has(K, x)]))))
 
 
 @invariant(SUB, "Substitutor.visit_dict", loop=0)
@@ -607,18 +624,38 @@ def _sub_list(c):
     # involved: an empty list that passes the relaxed validation of an element-less schema is never refused)
     c.ensures_exc("SubstitutionError", "not-for-an-empty-valid-value",
                   lambda e, post: z3.Or(z3.Not(V.rvalid(Sx, v)), M.llen(v) > 0, E != M.NilV), ("C12",))
+    c.ensures("elements", lambda r, post_: list_fact(ct, Sx, v, kw, r), ("C04", "C05", "C12"))
+    c.meta = {"cls": "ListSchema"}
+
+
+def list_cases(Sx: Any):
+    E = S.prop(Sx, "elements")
+    m = M.llen(E)
     e0, el = M.lat(E, 0) == M.EllV, M.lat(E, m - 1) == M.EllV
     body = z3.And(m > 2, e0, el)
     head = z3.And(z3.Not(body), m >= 2, el)
     tail = z3.And(z3.Not(body), z3.Not(head), m >= 1, e0)
+    return body, head, tail
 
-    def post(r, post_):
+
+def list_fact(ct, Sx: Any, v: Any, kw: Any, r: Any, skolem: Any = None) -> Any:
+    """what Substitutor.visit_list guarantees about its result (proved against the body); with `skolem` the window
+    position is that constant instead of an existential (hypothesis side of a lemma)"""
+    E, Ty = S.prop(Sx, "elements"), S.prop(Sx, "type")
+    n, m = M.llen(v), M.llen(E)
+    j = z3.Int("slj")
+    s0 = z3.Int("sls0")
+    body, head, tail = list_cases(Sx)
+    if True:
         R = S.prop(r, "elements")
         member = lambda jj, fn: z3.If(M.lat(v, jj) == M.EllV, M.lat(R, jj) == M.EllV, fn(M.lat(v, jj), M.lat(R, jj)))
         no_ell = z3.ForAll([j], z3.Implies(z3.And(0 <= j, j < n), M.lat(v, j) != M.EllV), patterns=[M.lat(v, j)])
-        win = lambda off, ne, cond: z3.Exists([s0], z3.And(win_at(R, s0), cond(s0),
-                                                           window_positions(ct, R, v, E, off, ne, s0, kw)),
-                                              patterns=[win_at(R, s0)])
+        if skolem is None:
+            win = lambda off, ne, cond: z3.Exists([s0], z3.And(win_at(R, s0), cond(s0),
+                                                               window_positions(ct, R, v, E, off, ne, s0, kw)),
+                                                  patterns=[win_at(R, s0)])
+        else:
+            win = lambda off, ne, cond: z3.And(cond(skolem), window_positions(ct, R, v, E, off, ne, skolem, kw))
         return z3.And(
             V.rvalid(Sx, v), M.isinstance_f(ct, v, "list"), M.isinstance_f(ct, R, "list"), M.llen(R) == n,
             *[S.prop(r, nm) == S.prop(Sx, nm) for nm in ("len", "min_len", "max_len")],
@@ -638,8 +675,6 @@ def _sub_list(c):
                        win(1, m - 1, lambda s: s == z3.If(n - (m - 1) > 0, n - (m - 1), 0))),
             z3.Implies(z3.And(Ty == M.NilV, E != M.NilV, z3.Not(body), z3.Not(head), z3.Not(tail)),
                        win(0, m, lambda s: s == 0)))
-    c.ensures("elements", post, ("C04", "C05", "C12"))
-    c.meta = {"cls": "ListSchema"}
 
 
 @invariant(SUB, "Substitutor.visit_list", loop=0)
@@ -673,3 +708,214 @@ def _inv_sl1(L):
 def _inv_sl2(L):
     """L29 (contains form): nothing is carried from one candidate position to the next (the parameters are not rebound)"""
     return z3.And(*[L.v(nm) == L.pre(nm) for nm in ("schema", "value", "elements")])
+
+
+# ============================================================================= container lemmas (C04 / C05 / C12)
+# Induction on the schema: the statements for the *member* substitutions (sub_ih, sub_acc; native_of for converted
+# members) are hypotheses, the statement for the container is the goal; the facts about the container's result are
+# exactly the postconditions proved against the bodies above (alias: registry, any_fact, dict_fact, list_fact).
+pinned = z3.Function("pinned", Obj, Obj, M.B)
+"""pinned(x, w): w carries the plain value x at the substituted positions (scalars equal, lists element-wise and of the
+same length, dicts on every key given)"""
+noell = z3.Function("noell", Obj, M.B)          # no `...` placeholder anywhere in the value (the domain of C04 / C05)
+sub_ih = z3.Function("sub_ih", Obj, Obj, Obj, M.B)
+sub_acc = z3.Function("sub_acc", Obj, Obj, Obj, M.B)
+
+
+def pinned_def(ct, x: Any, w: Any) -> Any:
+    j = z3.Int("pj2")
+    k = z3.Const("pk2", Obj)
+    return z3.If(M.isinstance_f(ct, x, "list"),
+                 z3.And(M.isinstance_f(ct, w, "list"), M.llen(w) == M.llen(x),
+                        z3.ForAll([j], z3.Implies(z3.And(0 <= j, j < M.llen(x)), pinned(M.lat(x, j), M.lat(w, j))),
+                                  patterns=[M.lat(x, j)])),
+           z3.If(M.isinstance_f(ct, x, "dict"),
+                 z3.And(M.isinstance_f(ct, w, "dict"),
+                        z3.ForAll([k], z3.Implies(M.has(x, k), z3.And(M.has(w, k), pinned(M.dget(x, k), M.dget(w, k)))),
+                                  patterns=[M.has(x, k)])),
+                 denotes(x, w)))
+
+
+def noell_def(ct, x: Any) -> Any:
+    j = z3.Int("nj2")
+    k = z3.Const("nk2", Obj)
+    return z3.And(x != M.EllV, plain_keys(x),
+                  z3.Implies(M.isinstance_f(ct, x, "list"),
+                             z3.ForAll([j], z3.Implies(z3.And(0 <= j, j < M.llen(x)), noell(M.lat(x, j))), patterns=[M.lat(x, j)])),
+                  z3.Implies(M.isinstance_f(ct, x, "dict"),
+                             z3.ForAll([k], z3.Implies(M.has(x, k), noell(M.dget(x, k))), patterns=[M.has(x, k)])))
+
+
+def sub_ih_def(ct, Mx: Any, x: Any, R: Any) -> Any:
+    w = z3.Const("ihw", Obj)
+    return z3.And(S.is_schema(ct, R), S.wf(R), S.reach(R), M.rcls(R) == M.rcls(Mx),
+                  z3.ForAll([w], z3.Implies(S.conforms(R, w), z3.And(S.conforms(Mx, w), pinned(x, w))),
+                            patterns=[S.conforms(R, w)]))
+
+
+def _container_axioms(ct) -> List[Any]:
+    x, w, Mx, R = z3.Consts("cax caw caM caR", Obj)
+    return [z3.ForAll([x, w], pinned(x, w) == pinned_def(ct, x, w), patterns=[pinned(x, w)]),
+            z3.ForAll([x], noell(x) == noell_def(ct, x), patterns=[noell(x)]),
+            z3.ForAll([Mx, x, R], sub_ih(Mx, x, R) == sub_ih_def(ct, Mx, x, R), patterns=[sub_ih(Mx, x, R)]),
+            z3.ForAll([Mx, x, R], sub_acc(Mx, x, R) == z3.Implies(S.conforms(Mx, x), S.conforms(R, x)),
+                      patterns=[sub_acc(Mx, x, R)]),
+            # denotes is the stronger relation (same key set): proved by the lemma `C04.denotes-pins` below, by induction
+            _denotes_pins_axiom()]
+
+
+def _denotes_pins_axiom() -> Any:
+    x, w = z3.Consts("cax caw", Obj)
+    return z3.ForAll([x, w], z3.Implies(denotes(x, w), pinned(x, w)), patterns=[denotes(x, w)])
+
+
+_REG.axiom_fns.append(_container_axioms)
+
+
+def member_ih(Mx: Any, x: Any, kw: Any) -> Any:
+    """induction hypothesis for one member substitution that does not refuse"""
+    r = subres(Mx, x, kw)
+    return z3.And(sub_ih(Mx, x, r), sub_acc(Mx, x, r))
+
+
+_WHICH = ["both"]
+
+
+def _goal_narrow_pins(ct, cls: str, Sx: Any, v: Any, R: Any, w: Any) -> Any:
+    concl = {"C05": S.conforms_def(ct, cls, Sx, w), "C04": pinned(v, w)}.get(
+        _WHICH[0], z3.And(S.conforms_def(ct, cls, Sx, w), pinned(v, w)))
+    return z3.Implies(S.conforms_def(ct, cls, R, w), concl)
+
+
+@lemma("C04.denotes-pins", props=("C04",))
+def _denotes_pins(lc):
+    """denotes(x, w) => pinned(x, w), by structural induction (members' implication is the hypothesis)"""
+    ct = lc.ct
+    x, w = z3.Consts("x w", Obj)
+    j = z3.Int("j")
+    k = z3.Const("k", Obj)
+    ih_l = z3.ForAll([j], z3.Implies(z3.And(0 <= j, j < M.llen(x), denotes(M.lat(x, j), M.lat(w, j))),
+                                     pinned(M.lat(x, j), M.lat(w, j))), patterns=[M.lat(x, j)])
+    ih_d = z3.ForAll([k], z3.Implies(z3.And(M.has(x, k), denotes(M.dget(x, k), M.dget(w, k))),
+                                     pinned(M.dget(x, k), M.dget(w, k))), patterns=[M.has(x, k)])
+    lc.drop = [_denotes_pins_axiom()]        # proved here: must not be among the axioms of this lemma
+    lc.oblige("step", [ih_l, ih_d, denotes(x, w)], pinned(x, w), {"value": x, "w": w}, {},
+              text="denotes(x, w) implies pinned(x, w), given the same for the members")
+
+
+@lemma("C05.containers", props=("C05",))
+def _containers_c05(lc):
+    """everything a container's S % v accepts is accepted by S (members' statements as induction hypothesis)"""
+    _WHICH[0] = "C05"
+    try:
+        _containers(lc)
+        lc.obligations = [o for o in lc.obligations if ":accepts" not in o.name]
+    finally:
+        _WHICH[0] = "both"
+
+
+@lemma("C04.containers", props=("C04",))
+def _containers_c04(lc):
+    """everything a container's S % v accepts carries v; S % v accepts a conforming v"""
+    _WHICH[0] = "C04"
+    try:
+        _containers(lc)
+    finally:
+        _WHICH[0] = "both"
+
+
+def _containers(lc):
+    """From the exact contracts of the container visits and the members' statements: everything S % v accepts is
+    accepted by S and carries v; if v conforms to S (and, for `any`, the alternative it conforms to can be
+    substituted) S % v accepts v; the result is a usable schema."""
+    ct = lc.ct
+    v, w, kw = z3.Consts("v w kw", Obj)
+    j = z3.Int("j")
+    x = z3.Const("x", Obj)
+    base = [noell(v), S.float_range(v), S.float_range(w)]
+
+    # ---- alias
+    Sx, R = z3.Consts("S_alias R_alias", Obj)
+    T_ = S.prop(Sx, "type")
+    hyp = base + list(S.reach_def(ct, "TypeAliasSchema", Sx)) + [
+        M.has(S.reg_of(Sx), S.S_("type")), z3.Not(subraises(T_, v, kw)),
+        S.registry_is(ct, "TypeAliasSchema", R, Sx, {"type": subres(T_, v, kw)}), member_ih(T_, v, kw)]
+    inp = {"schema": Sx, "value": v, "w": w}
+    lc.oblige("alias:narrows-and-pins", hyp, _goal_narrow_pins(ct, "TypeAliasSchema", Sx, v, R, w), inp, {"cls": "TypeAliasSchema"},
+              text="every value accepted by alias % v is accepted by the alias and carries v")
+    lc.oblige("alias:accepts", hyp + [S.conforms_def(ct, "TypeAliasSchema", Sx, v)], S.conforms_def(ct, "TypeAliasSchema", R, v),
+              inp, {"cls": "TypeAliasSchema"}, text="alias % v accepts v when v conforms")
+
+    # ---- any
+    Sx, R = z3.Consts("S_any R_any", Obj)
+    T_ = S.prop(Sx, "types")
+    n = M.llen(T_)
+    ih = z3.ForAll([j], z3.Implies(z3.And(0 <= j, j < n, z3.Not(subraises(M.lat(T_, j), v, kw))),
+                                   member_ih(M.lat(T_, j), v, kw)), patterns=[M.lat(T_, j)])
+    hyp = base + list(S.reach_def(ct, "AnySchema", Sx)) + [S.declared(Sx, "types"), any_fact(ct, Sx, v, kw, R), ih]
+    inp = {"schema": Sx, "value": v, "w": w}
+    lc.oblige("any:narrows-and-pins", hyp, _goal_narrow_pins(ct, "AnySchema", Sx, v, R, w), inp, {"cls": "AnySchema"},
+              text="every value accepted by any(...) % v is accepted by the union and carries v")
+    fits = z3.Int("fits")
+    # listed finding C04-any-fallback: an alternative v conforms to may refuse (extra key under a relaxed dict) while
+    # another one, which v satisfies only partially, is kept; proved where a conforming alternative can be substituted
+    acc_region = [0 <= fits, fits < n, S.conforms(M.lat(T_, fits), v)] + \
+        ([z3.Not(subraises(M.lat(T_, fits), v, kw))] if "C04-any-fallback" in ACTIVE() else [])
+    lc.oblige("any:accepts", hyp + acc_region, S.conforms_def(ct, "AnySchema", R, v), inp, {"cls": "AnySchema"},
+              text="any(...) % v accepts v when an alternative v conforms to can be substituted")
+
+    # ---- dict (declared keys)
+    Sx, R = z3.Consts("S_dict R_dict", Obj)
+    K = S.prop(Sx, "keys")
+    ihd = z3.ForAll([x], z3.Implies(z3.And(M.has(K, x), M.has(v, x), M.dget(v, x) != M.EllV,
+                                           z3.Not(subraises(M.lat(M.dget(K, x), 0), M.dget(v, x), kw))),
+                                    member_ih(M.lat(M.dget(K, x), 0), M.dget(v, x), kw)), patterns=[M.has(K, x)])
+    hyp = base + list(S.reach_def(ct, "DictSchema", Sx)) + [dict_fact(ct, Sx, v, kw, R), ihd]
+    inp = {"schema": Sx, "value": v, "w": w}
+    lc.oblige("dict:narrows-and-pins", hyp, _goal_narrow_pins(ct, "DictSchema", Sx, v, R, w), inp, {"cls": "DictSchema"},
+              text="every value accepted by dict % v is accepted by the dict schema and carries v on every key given")
+    # members converted by from_native accept themselves: denotes is reflexive on NaN-free plain values (lemma C14.denotes;
+    # NaN is the listed finding C14-nan / C04-float-nan)
+    refl_d = z3.ForAll([x], z3.Implies(M.has(v, x), denotes(M.dget(v, x), M.dget(v, x))), patterns=[M.has(v, x)])
+    lc.oblige("dict:accepts", hyp + [refl_d, S.conforms_def(ct, "DictSchema", Sx, v)], S.conforms_def(ct, "DictSchema", R, v),
+              inp, {"cls": "DictSchema"}, text="dict % v accepts v when v conforms")
+
+    # ---- list
+    Sx, R = z3.Consts("S_list R_list", Obj)
+    E, Ty = S.prop(Sx, "elements"), S.prop(Sx, "type")
+    q = z3.Int("q")
+    s0c = z3.Int("s0c")          # the window position (the existential of list_fact, eliminated)
+    mE = M.llen(E)
+    bodyc, headc, tailc = list_cases(Sx)
+    exactc = z3.And(z3.Not(bodyc), z3.Not(headc), z3.Not(tailc))
+
+    def ih_window(case, off, ne):
+        # induction hypothesis for exactly the member substitutions list_fact speaks about in this case
+        e = M.lat(E, off + j - s0c)
+        return z3.Implies(case, z3.ForAll([j], z3.Implies(
+            z3.And(s0c <= j, j < s0c + ne, z3.Not(subraises(e, M.lat(v, j), kw))), member_ih(e, M.lat(v, j), kw)),
+            patterns=[M.lat(v, j)]))
+    ihl = z3.And(
+        z3.ForAll([j], z3.Implies(z3.And(0 <= j, j < M.llen(v), Ty != M.NilV, z3.Not(subraises(Ty, M.lat(v, j), kw))),
+                                  member_ih(Ty, M.lat(v, j), kw)), patterns=[M.lat(v, j)]),
+        ih_window(bodyc, 1, mE - 2), ih_window(headc, 0, mE - 1), ih_window(tailc, 1, mE - 1), ih_window(exactc, 0, mE))
+    hb1, hb2 = M.fresh("hint", M.B), M.fresh("hint", M.B)
+    hints = [hb1 == S.window_ok(E, 1, mE - 2, w, s0c), hb2 == S.window_ok(E, 1, mE - 2, v, s0c)]   # name the window terms
+    hyp = base + list(S.reach_def(ct, "ListSchema", Sx)) + [list_fact(ct, Sx, v, kw, R, skolem=s0c), ihl] + hints
+    inp = {"schema": Sx, "value": v, "w": w}
+    cases = [("untyped", z3.And(E == M.NilV, Ty == M.NilV)), ("typed", Ty != M.NilV),
+             ("contains", z3.And(Ty == M.NilV, E != M.NilV, bodyc)), ("head", z3.And(Ty == M.NilV, E != M.NilV, headc)),
+             ("tail", z3.And(Ty == M.NilV, E != M.NilV, tailc)), ("exact", z3.And(Ty == M.NilV, E != M.NilV, exactc))]
+    refl_l = z3.ForAll([j], z3.Implies(z3.And(0 <= j, j < M.llen(v)), denotes(M.lat(v, j), M.lat(v, j))), patterns=[M.lat(v, j)])
+    for cname, cond in cases:       # one obligation per form of the list schema (they are exhaustive)
+        lc.oblige(f"list[{cname}]:narrows-and-pins", hyp + [cond], _goal_narrow_pins(ct, "ListSchema", Sx, v, R, w), inp,
+                  {"cls": "ListSchema"}, text="every value accepted by list % v is accepted by the list schema and carries v element-wise")
+        extra = []
+        if cname == "contains":
+            # listed finding C04-contains-partial-window: the window is put at the first position whose relaxed
+            # substitution succeeds, which v may match only partially; proved where v conforms at that position
+            extra = [S.window_ok(E, 1, mE - 2, v, s0c)] if "C04-contains-partial-window" in ACTIVE() else []
+        lc.oblige(f"list[{cname}]:accepts", hyp + extra + [cond, refl_l, S.conforms_def(ct, "ListSchema", Sx, v)],
+                  S.conforms_def(ct, "ListSchema", R, v), inp, {"cls": "ListSchema"}, text="list % v accepts v when v conforms")
+    lc.oblige("list:cases-exhaustive", hyp, z3.Or(*[c_ for _, c_ in cases]), inp, {"cls": "ListSchema"},
+              text="the six forms of a list schema cover every reachable list schema")
